@@ -15,7 +15,7 @@ use bytes::Bytes;
 use futures::Future;
 use selium_protocol::{ErrorPayload, Frame, MessagePayload, RequestorPayload, TopicName};
 use selium_server::topic::reqrep::{Socket, Topic};
-use std::collections::{BTreeMap, HashMap, VecDeque};
+use std::collections::{BTreeSet, BTreeMap, HashMap, VecDeque};
 use std::sync::atomic::Ordering;
 use std::sync::Arc;
 use std::task::{Context, Poll};
@@ -298,9 +298,14 @@ pub fn monitor(o: &Obs) -> Result<(), String> {
     // register binds: a replier must not be told "already bound" when every replier before it had failed, been dropped or
     // been rejected before its own registration was even sent
     let mut gone_at: BTreeMap<usize, usize> = BTreeMap::new(); // replier n -> index of the event after which it cannot be bound
+    let mut ended: BTreeSet<usize> = BTreeSet::new();           // repliers whose stream has reported its end
     for (idx, e) in o.events.iter().enumerate() {
         match e {
-            // (a flush error of a replier that is leaving anyway only warns; it is unbound once the requestors are flushed)
+            Ev::StreamEnd(i) if *i >= V => { ended.insert(*i - V); }
+            // a replier whose sink fails while it is being flushed is unbound on the spot, like one that fails at readiness
+            // (a flush error of a replier that is leaving anyway - its stream has ended - only warns; that one is unbound
+            // once the requestors are flushed, and its drop is what counts)
+            Ev::SinkFlush(i, A::Err) if *i >= V && !ended.contains(&(*i - V)) => { gone_at.entry(*i - V).or_insert(idx); }
             Ev::SinkReady(i, A::Err) if *i >= V => { gone_at.entry(*i - V).or_insert(idx); }
             // (a replier whose stream ended stays bound until the flush towards it completes: only its drop counts)
             Ev::Dropped(_, i) if *i >= V => { gone_at.entry(*i - V).or_insert(idx); }
